@@ -48,10 +48,14 @@ def setup(J):
             jobs.append(J.with_delay_fallback(J.wf("C16", g, 1, 1, 2, "cmd", oracles=["nohang", "c16-unwired"], tier=tier, events_dep=False, omit_edge=e, id=f"C16-unwired-{g}-e{e}-cmd")))
         for g, targets in (("g3", ["p"]), ("g4", ["q"]), ("g8b", ["p"]), ("g11", ["p"]), ("g5", ["src"]), ("g7", ["q"])):
             jobs.append(J.with_delay_fallback(J.wf("C16", g, 1, 1, 2, "cmd", oracles=["nohang", "clean", "c04", "c05", "c16-runto"], tier=tier, events_dep=False, runto=targets, runtohow="name", budget=(20 if q else 120), id=f"C16-runto-{g}-{'+'.join(targets)}-name-cmd")))
+        # a parameter port fed by a process AND by literal values: the closure must hold the process whatever
+        # order the port's connections are walked in (+ every other map order forced)
+        for targets in (["p"], ["q"]):
+            jobs.append(J.with_delay_fallback(J.wf("C16", "g8e", 2, 1, 2, "func", oracles=["nohang", "clean", "c16-runto", "c16-closure-ran"], tier=tier, events_dep=False, runto=targets, runtohow="name", budget=(20 if q else 120), id=f"C16-runto-g8e-{'+'.join(targets)}-name")))
         # regular expressions are independent of each other; no patterns = nothing to run (refused)
         for g, targets in (("g4", ["q"]), ("g4", ["p"]), ("g7", ["r"]), ("g3", ["p"])):
             jobs.append(J.with_delay_fallback(J.wf("C16", g, 1, 1, 2, "func", oracles=["nohang", "clean", "c04", "c05", "c16-runto"], tier=tier, events_dep=False, runto=targets, runtohow="regex-ci", budget=20, id=f"C16-runto-{g}-{'+'.join(targets)}-regex-ci")))
         jobs.append(J.wf("C16", "g3", 1, 1, 2, "func", oracles=["nohang", "c16-unwired"], tier=tier, events_dep=False, runto=["-"], runtohow="regex-empty", id="C16-runto-g3-regex-no-patterns"))
-        return {"level": "model_checking", "native": True, "stages": [lambda ctx, prev: jobs],
+        return {"level": "model_checking", "native": True, "stages": [lambda ctx, prev: jobs, J.maporder_stage("C16", [], tier, graphs=("g8e",), per_job=True)],
                 "rule": "graphs G3-G8/G11: (a) every single file / parameter edge left unconnected -> exit != 0 and zero start events in every schedule; (b) consumers removed -> dangling out-ports, run completes with the reference result; (c) EVERY non-empty subset of processes as RunTo targets (by name, regex, process value): processes with start events = reference transitive closure over file and parameter edges, each task exactly once, reference files, C05 return predicate; all schedules by DPOR + sleep sets (delay bound 2 where not closed)",
                 "assumptions": J.BASE_ASSUMPTIONS}
